@@ -33,11 +33,13 @@ run|base)
   "
   ;;
 sync)
-  # refresh the copies from the current HEADs (files that changed get a new mtime)
+  # refresh the copies from the current HEADs. No -t: a file whose content changes gets the current
+  # time, and an unchanged file keeps its mtime (rsync -t would set an OLD commit time on a file that a
+  # reverted patch had just touched, and cargo would then keep the binary built from the patched file)
   rm -rf $S/repo.new && mkdir -p $S/repo.new && git -C /repo archive HEAD | tar -x -C $S/repo.new
-  rsync -a --checksum --delete --exclude target $S/repo.new/ $S/repo/ && rm -rf $S/repo.new
+  rsync -rlpc --delete --exclude target $S/repo.new/ $S/repo/ && rm -rf $S/repo.new
   rm -rf $S/verif.new && mkdir -p $S/verif.new && git -C /verif archive HEAD | tar -x -C $S/verif.new
-  rsync -a --checksum --exclude .build --exclude .lake $S/verif.new/ $S/verif/ && rm -rf $S/verif.new
+  rsync -rlpc --exclude .build --exclude .lake $S/verif.new/ $S/verif/ && rm -rf $S/verif.new
   find $S/repo $S/verif/harness $S/verif/lean -newer $S/.stamp -type f 2>/dev/null | head -0
   touch $S/.stamp
   echo synced
